@@ -254,6 +254,10 @@ Definition chk (c : streams * list (rop * xp)) : bool := replay (mkR (fst c) [] 
     elif r['ok'].get('jit_disabled') != runs[0]:
       chk.violation('oracle', 'the keys handed out under nn.jit depend on which call was traced first: they differ from the same nn.jit program evaluated under jax.disable_jit() '
                     '(a later call re-used a trace made at other rng counters)', {'case': c, 'jit': runs[0], 'jit_disabled': r['ok'].get('jit_disabled')})
+  # branches of nn.cond / nn.switch that draw different numbers of keys, and a draw after the transform
+  chk.count({'branch_draws': 1}, True)
+  for b in common.run_impl('impl_c09.py', {'branch_draws': True}, timeout=900)['branch_draws'][:4]:
+    chk.violation('oracle', 'within one apply a key drawn inside the branch of nn.%s that ran and a later draw (or two draws of the branch) are the same key, or the call raised' % b['form'], b)
   # sibling modules / child scopes passed as ARGUMENTS into a jitted or fold_rngs-wrapped module (F31)
   ja = [{'form': f, 'nsib': rng.randint(2, 3), 'draws': rng.randint(1, 2), 'own': rng.random() < 0.6, 'applies': 2, 'seed': rng.randint(0, 99)}
         for f in ('method', 'class', 'fold', 'core') for _ in range(3 if thorough else 1)]
